@@ -329,18 +329,19 @@ fn corruptions(f: &[u8], version: u8, v1: &Block, v2: Option<&Block>, rec: &Reco
             expect_err(rebuild(which, ov), name, None, tl);
         }
     }
-    // truncation at every block boundary -1 / 0 / +1 (inside the footer only framing-breaking cuts are judged)
+    // truncation at every block boundary -1 / 0 / +1 and at every byte of the footer
     let body_end = if version == 0 { f.len() } else { hdr2 + 44 + tzif::body(v2.unwrap(), true).len() };
-    for &bd in &tzif::boundaries(version, v1, v2) {
+    let mut cuts: Vec<usize> = tzif::boundaries(version, v1, v2);
+    if version != 0 {
+        cuts.extend(body_end..f.len());
+    }
+    for &bd in &cuts {
         for d in [-1i64, 0, 1] {
             let cut = bd as i64 + d;
             if cut < 0 || cut as usize >= f.len() {
                 continue;
             }
             let cut = cut as usize;
-            if version != 0 && cut > body_end {
-                continue;
-            }
             if version == 0 && cut == f.len() {
                 continue;
             }
@@ -455,6 +456,60 @@ fn footer_disagrees_with_last_transition(bytes: &[u8]) -> bool {
     }
 }
 
+/// every single-byte corruption (6 values at every offset) and every truncation of the corpus files: the implementation must
+/// accept exactly what the independent reader + constructor accept, and decode the same zone
+fn sweep_corpus_mutations(rec: &Recorder, thorough: bool) -> Tally {
+    let mut seen = std::collections::BTreeSet::new();
+    let mut files: Vec<(String, Vec<u8>)> = vec![];
+    for sub in ["slim", "fat"] {
+        for p in corpus_files(sub) {
+            if let Ok(b) = std::fs::read(&p) {
+                let mut f = Fnv::default();
+                f.bytes(&b);
+                if seen.insert(f.0) {
+                    files.push((p.display().to_string(), b));
+                }
+            }
+        }
+    }
+    let vals = [0u8, 1, 2, 0x7f, 0x80, 0xff];
+    let t = files
+        .par_iter()
+        .enumerate()
+        .map(|(i, (path, b))| {
+            let mut tl = Tally::default();
+            // quick: all slim files whose index is a multiple of 3 and every 16th fat file; thorough: every slim file, every 4th fat file
+            let take = if thorough { path.contains("/slim/") || i % 4 == 0 } else { (path.contains("/slim/") && i % 3 == 0) || i % 16 == 0 };
+            if !take {
+                return tl;
+            }
+            let mut x = b.clone();
+            for off in 0..b.len() {
+                let orig = x[off];
+                for &v in &vals {
+                    if v == orig {
+                        continue;
+                    }
+                    x[off] = v;
+                    tl.corrupt += 1;
+                    check_file(&x, &format!("{path} with byte {off} = {v:#x}"), rec, "corpus_mutations", &mut tl);
+                    if rec.saturated() {
+                        return tl;
+                    }
+                }
+                x[off] = orig;
+            }
+            for cut in 0..b.len() {
+                tl.corrupt += 1;
+                check_file(&b[..cut], &format!("{path} truncated to {cut}"), rec, "corpus_mutations", &mut tl);
+            }
+            tl
+        })
+        .reduce(Tally::default, Tally::merge);
+    rec.sub("corpus_mutations", json!({"distinct_files": files.len(), "mutated_files_compared": t.evals, "accepted_mutants": t.accepted, "rejected_mutants": t.rejected}));
+    t
+}
+
 /// large tables: RFC 8536 puts no bound on the 32-bit counts (beyond the data being present)
 fn sweep_large(rec: &Recorder, thorough: bool) -> Tally {
     let mut tl = Tally::default();
@@ -530,6 +585,7 @@ pub fn run(args: &Args) -> i32 {
     let mut total = sweep_synth(&rec, thorough);
     total = total.merge(sweep_corpus(&rec));
     total = total.merge(sweep_large(&rec, thorough));
+    total = total.merge(sweep_corpus_mutations(&rec, thorough));
     rec.add(total.evals, total.corrupt);
     rec.digest("tzif", total.digest);
     rec.set_rule("writer side: zones over {0,1,3} transitions x {1,2,3} types x {0,1,2} leap records x 4 designation pools (shared / overlapping / empty / unterminated tail) x 4 indicator layouts x 4 time sets (32/64-bit extremes) x footers, encoded v1/v2/v3 by an independent writer with a DIFFERENT zone in the 32-bit block of v2+ files; decoded zone must equal TimeZone::new(expected parts). reader side: every file of the fat and slim corpora decoded by an independent reader. reject side: every corruption class of the property on the synthesised files. non-trivial = corrupted files");
